@@ -234,3 +234,29 @@ func Atomicity(t WTxn, prev Allowed, later map[int]bool, got Reads, keys []vlib.
 	}
 	return ""
 }
+
+// LaterKeys returns, for the in-flight transaction no, the keys written by any transaction that
+// comes after it in the chain of runs and whose Commit was at least called (acknowledged or in
+// flight): on those keys the effect of no is no longer observable.
+func LaterKeys(runs []Run, no int) map[int]bool {
+	later := map[int]bool{}
+	seen := false
+	for _, r := range runs {
+		called := map[int]bool{}
+		for _, e := range r.Ack {
+			called[e.No] = true
+		}
+		for _, t := range r.Txns {
+			if t.No == no {
+				seen = true
+				continue
+			}
+			if seen && called[t.No] {
+				for k := range t.Final() {
+					later[k] = true
+				}
+			}
+		}
+	}
+	return later
+}
